@@ -61,19 +61,40 @@ theorem tblOKb_sound (T : Array Nat) (nb : Nat) (h : tblOKb T nb = true) : TblOK
   · exact absurd hr h1
   · exact ⟨h1, repb_sound _ _ _ h2⟩
 
-def agreeb (T : Array Nat) (nb : Nat) (h : Huff) (val : Nat → Nat) : Bool :=
-  (List.range (2 ^ 15)).all fun x =>
+def agreeb (K : Nat) (T : Array Nat) (nb : Nat) (h : Huff) (val : Nat → Nat) : Bool :=
+  (List.range (2 ^ K)).all fun x =>
     match specWin h x with
     | some (v, L) => (lookup2 T nb x).2 == L && (lookup2 T nb x).1 >>> 4 == val v >>> 4
     | none => true
 
-theorem agreeb_sound (T : Array Nat) (nb : Nat) (h : Huff) (val : Nat → Nat) (hb : agreeb T nb h val = true) :
+theorem mod_pow_bit (x K i : Nat) (hi : i < K) : (x % 2 ^ K) / 2 ^ i % 2 = x / 2 ^ i % 2 := by
+  have hsplit : 2 ^ K = 2 ^ i * 2 ^ (K - i) := by rw [← Nat.pow_add]; congr 1; omega
+  rw [hsplit, Nat.mod_mul_right_div_self]
+  have : 2 ∣ 2 ^ (K - i) := by
+    obtain ⟨d, hd⟩ : ∃ d, K - i = d + 1 := ⟨K - i - 1, by omega⟩
+    rw [hd, Nat.pow_succ]; exact Nat.dvd_mul_left 2 _
+  exact Nat.mod_mod_of_dvd _ this
+
+/-- the check over `2^K` windows gives `Agree` (over all 15-bit windows) when neither the code nor the table
+    looks beyond bit `K` (no code longer than `K`, first level at most `K` bits, no second level) -/
+theorem agreeb_sound (K : Nat) (T : Array Nat) (nb : Nat) (h : Huff) (val : Nat → Nat) (hm : h.maxLen ≤ K)
+    (hnb : nb ≤ K) (hno : ∀ i, i < 2 ^ nb → ¬ isRedirect (tget T i)) (hb : agreeb K T nb h val = true) :
     Agree T nb h val := by
-  intro x hx v L hs
+  intro x _ v L hs
+  have hx' : x % 2 ^ K < 2 ^ K := Nat.mod_lt _ (Nat.two_pow_pos K)
+  have hspec : specWin h (x % 2 ^ K) = specWin h x := by
+    unfold specWin
+    apply decodeBits_congr
+    intro i _ hi
+    exact mod_pow_bit x K i (by omega)
+  have hi : x % 2 ^ nb < 2 ^ nb := Nat.mod_lt _ (Nat.two_pow_pos nb)
+  have hlk : lookup2 T nb (x % 2 ^ K) = lookup2 T nb x := by
+    have e : x % 2 ^ K % 2 ^ nb = x % 2 ^ nb := Nat.mod_mod_of_dvd _ (Nat.pow_dvd_pow 2 hnb)
+    simp only [lookup2, e, if_neg (hno _ hi)]
   unfold agreeb at hb
   rw [List.all_eq_true] at hb
-  have := hb x (List.mem_range.mpr hx)
-  rw [hs] at this
+  have := hb (x % 2 ^ K) (List.mem_range.mpr hx')
+  rw [hspec, hs, hlk] at this
   simpa using this
 
 /-! ### tables that differ only where nobody looks -/
@@ -147,58 +168,5 @@ theorem applyWrites_changed (w : List (Nat × Nat)) (t : Array Nat) (i : Nat)
   apply Classical.byContradiction
   intro hc
   exact h (applyWrites_untouched w t i (fun iv hm he => hc ⟨iv, hm, he⟩))
-
-/-! ### the fixed-Huffman tables -/
-
-def zeroTbl : Array Nat := Array.replicate 1024 0
-
-/-- everything the proof needs about `init_huff` on the fixed code lengths, as one evaluation -/
-def fixedOK (which n0 n1 baseSym nbWant : Nat) (h : Huff) (val : Nat → Nat) : Bool :=
-  match initHuffWrites fixedCodeLengths which n0 n1 baseSym with
-  | .ok (w, nb) =>
-    nb == nbWant &&
-      (let T := applyWrites zeroTbl w
-       (List.range (2 ^ nb)).all (fun i => tget T i != 0) && noRedirb T nb && tblOKb T nb && agreeb T nb h val)
-  | .error _ => false
-
-set_option maxRecDepth 100000 in
-theorem fixed_lit_ok : fixedOK 0 0 288 257 9 fixedLit valL = true := by decide +kernel
-
-set_option maxRecDepth 100000 in
-theorem fixed_dist_ok : fixedOK 1 288 320 0 5 fixedDist valD = true := by decide +kernel
-
-theorem fixed_huff_maxLen : fixedLit.maxLen ≤ 15 ∧ fixedDist.maxLen ≤ 15 := by decide +kernel
-
-theorem fixed_table (which n0 n1 baseSym nbWant : Nat) (h : Huff) (val : Nat → Nat)
-    (hok : fixedOK which n0 n1 baseSym nbWant h val = true) (old : Array Nat) (hs : old.size = 1024) :
-    ∃ T, initHuff fixedCodeLengths old which n0 n1 baseSym = .ok (T, nbWant) ∧ T.size = 1024 ∧
-      TblOK T nbWant ∧ Agree T nbWant h val := by
-  unfold fixedOK at hok
-  unfold initHuff
-  cases hw : initHuffWrites fixedCodeLengths which n0 n1 baseSym with
-  | error e => rw [hw] at hok; simp at hok
-  | ok r =>
-    obtain ⟨w, nb⟩ := r
-    rw [hw] at hok
-    simp only [Bool.and_eq_true, beq_iff_eq, List.all_eq_true, List.mem_range, bne_iff_ne, ne_eq] at hok
-    obtain ⟨rfl, ⟨⟨hcov, hnr⟩, htb⟩, hag⟩ := hok
-    simp only [bind, Except.bind]
-    have hsz : (applyWrites old w).size = 1024 := by rw [applyWrites_size, hs]
-    have hsame : ∀ i, i < 2 ^ nb → tget (applyWrites old w) i = tget (applyWrites zeroTbl w) i := by
-      intro i hi
-      have hne := hcov i hi
-      rw [tget_eq] at hne ⊢
-      rw [tget_eq]
-      have hwr := applyWrites_changed w zeroTbl (i % 1024) (by
-        intro hc; apply hne; rw [hc]; simp [zeroTbl, Array.getD_eq_getD_getElem?])
-      exact applyWrites_written w old zeroTbl (i % 1024) (by rw [hs]; rfl) hwr
-    have hno : ∀ i, i < 2 ^ nb → ¬ isRedirect (tget (applyWrites zeroTbl w) i) := by
-      intro i hi
-      unfold noRedirb at hnr
-      rw [List.all_eq_true] at hnr
-      have := hnr i (List.mem_range.mpr hi)
-      simpa using this
-    exact ⟨_, rfl, hsz, tblOK_transfer _ _ nb hsame hno (tblOKb_sound _ _ htb),
-      agree_transfer _ _ nb h val hsame hno (agreeb_sound _ _ _ _ hag)⟩
 
 end WuffsVerif.StdDeflate
